@@ -90,6 +90,8 @@ def _pipeline(tier):
     import random
     rng = random.Random(C.seed() + 99)
     rng.shuffle(cfgs)
+    # groups (their input / output lists are built from caller-supplied collections) always take part
+    cfgs = [c for c in cfgs if c.get('family', '').startswith('groups')] + [c for c in cfgs if not c.get('family', '').startswith('groups')]
     cfgs = cfgs[:T['ncfg']]
     jobs = []
     for c in cfgs:
